@@ -67,6 +67,16 @@ type ContractSet struct {
 	CtxScope   map[string][]string
 	Durables   []*Durable
 	Encaps     []*EncapDecl
+	Defines    map[string]*Define // spec macros, by name (all packages)
+}
+
+// Define: a spec-level macro `define name(p1, p2) expr`; a call in a spec is
+// the body with the arguments bound to the parameters (pure abbreviation).
+type Define struct {
+	PkgPath string
+	Name    string
+	Params  []string
+	Clause  *Clause
 }
 
 // StateInv: a state-indexed data invariant of one table (FSM layer). An
@@ -297,6 +307,28 @@ func (cs *ContractSet) parseFile(pkgPath, file string) error {
 			tf := strings.SplitN(fs[0], ".", 2)
 			d.TypeName, d.Field, d.Writers = tf[0], tf[1], fs[2:]
 			cs.Encaps = append(cs.Encaps, d)
+		case "define":
+			// define name(p1, p2, ...) expr
+			open := strings.Index(rest, "(")
+			closeP := strings.Index(rest, ")")
+			if open <= 0 || closeP < open {
+				return fmt.Errorf("%s:%d: define name(params) expr", file, lineNo)
+			}
+			d := &Define{PkgPath: pkgPath, Name: strings.TrimSpace(rest[:open])}
+			for _, p := range strings.Split(rest[open+1:closeP], ",") {
+				if p = strings.TrimSpace(p); p != "" {
+					d.Params = append(d.Params, p)
+				}
+			}
+			rest = strings.TrimSpace(rest[closeP+1:])
+			d.Clause = mk("define")
+			if cs.Defines == nil {
+				cs.Defines = map[string]*Define{}
+			}
+			if _, dup := cs.Defines[d.Name]; dup {
+				return fmt.Errorf("%s:%d: duplicate define %s", file, lineNo, d.Name)
+			}
+			cs.Defines[d.Name] = d
 		case "stateunits":
 			// stateunits <table> <props...> : properties whose check runs the per-state units of that table
 			fs := strings.Fields(rest)
